@@ -26,7 +26,7 @@ CHECKS = {
     "C10": (
         "model_checking",
         "explicit-state BFS over admissible frame histories on the real Tracker with an identity-map oracle",
-        "Every admissible history (the property's class, decided from the history alone) up to the frame bound, with every per-frame detection order and drifting positions, is executed on the real Tracker for each configuration; on every transition each animal must carry the track it first received and newcomers must get a never-held track. Exhaustive within bound. A fast-mover scenario (30 px/frame, 100 px apart, single-frame absences) for the distance-scoring configurations makes cumulative displacement exceed the separation within the frame bound.",
+        "Every admissible history (the property's class, decided from the history alone) up to the frame bound, with every per-frame detection order and drifting positions, is executed on the real Tracker for each configuration; on every transition each animal must carry the track it first received and newcomers must get a never-held track. Exhaustive within bound. A fast-mover scenario (30 px/frame, 100 px apart, single-frame absences) for the distance-scoring configurations makes cumulative displacement exceed the separation within the frame bound. A diagonal-neighbour scenario (boxes separated along both axes) is explored for the IoU configurations.",
         "bounds on frames/K/window; absence counted in frames; well-separated geometry fixed; merging validated by replay on fresh trackers",
         "DESIGN.md §3 C10",
     ),
@@ -68,7 +68,7 @@ CHECKS = {
     "C19": (
         "model_checking",
         "crash-point enumeration: every prefix of the audit-hook log of file-system mutations of a real ModelTrainer construction + 1-step training run, x configuration grid",
-        "The real trainer runs for each configuration of the grid (model type x data framework x tracking x checkpointing x config kind, API key always present); an audit hook logs every file-system mutation under the output/chunk/wandb directories and at every such event the directory state left by all previous writes - the state a crash at that point leaves - is scanned for the key bytes (checkpoints are also unpickled); final artifacts are compared with the documented ones. All crash points of all runs are examined. The environment answer 'available memory' is owned by the harness: low-memory runs make the in-memory framework fall back to chunk files in a scratch cwd that is observed as well.",
+        "The real trainer runs for each configuration of the grid (model type x data framework x tracking x checkpointing x config kind, API key always present); an audit hook logs every file-system mutation under the output/chunk/wandb directories and at every such event the directory state left by all previous writes - the state a crash at that point leaves - is scanned for the key bytes (checkpoints are also unpickled); final artifacts are compared with the documented ones. All crash points of all runs are examined. The environment answer 'available memory' is owned by the harness: low-memory runs make the in-memory framework fall back to chunk files in a scratch cwd that is observed as well. Histories with a second train() call on the same trainer object are part of the grid.",
         "writes by the wandb service process are seen at the next event/final scan; torn writes covered by the prefix argument unless the key is split across files; litdata out of scope",
         "DESIGN.md §3 C19",
     ),
@@ -103,14 +103,14 @@ CHECKS = {
     "C12": (
         "model_checking",
         "exhaustive enumeration of all batches (ordered selections with repetition, size<=3/4) over a 4-frame alphabet x model type x max_instances x refinement, differential against the alone-run",
-        "Every batch up to the size bound built from frames with 0..3 animals, two original sizes (two eff_scales) and two video indices goes through the real _predict_generator batching and the real inference models (ideal networks); each frame's records must equal its alone-run, carry its own frame/video index, empty frames yield nothing, and max_instances keeps the k best (top-down in the model, bottom-up in the real label assembly). Complete within the bound. Every selection of >= 2 frames is additionally run as consecutive smaller batches through one inference-model instance (state carried between batches).",
+        "Every batch up to the size bound built from frames with 0..3 animals, two original sizes (two eff_scales) and two video indices goes through the real _predict_generator batching and the real inference models (ideal networks); each frame's records must equal its alone-run, carry its own frame/video index, empty frames yield nothing, and max_instances keeps the k best (top-down in the model, bottom-up in the real label assembly). Complete within the bound. Every selection of >= 2 frames is additionally run as consecutive smaller batches through one inference-model instance (state carried between batches). A tiny bottom-up family (4x6 PAF grid) is run in every batch of 7 (thorough 5..9) frames over a 2-frame alphabet, i.e. batches larger than every PAF-grid axis.",
         "ideal networks; frame buffer pre-filled (reader side is C13); B<=3 quick / 4 thorough",
         "DESIGN.md §3 C12",
     ),
     "C14": (
         "model_checking",
         "exhaustive enumeration of the validity-predicate configuration grid (build + forward of the real Model) and of all eval-mode call histories up to depth 3/4 with a fresh-copy differential oracle",
-        "Every configuration of the enumerated grid that satisfies the documented validity predicate is built and run on inputs that are multiples of the max stride: one output per head with the contracted channels and spatial size, equal to the shape the target generators produce. Every call history up to the depth bound over an input alphabet (sizes, batch of two) is executed on representatives of each backbone family; the last output must equal a fresh copy's output for that frame alone (determinism, history and batch-mate independence).",
+        "Every configuration of the enumerated grid that satisfies the documented validity predicate is built and run on inputs that are multiples of the max stride: one output per head with the contracted channels and spatial size, equal to the shape the target generators produce. Every call history up to the depth bound over an input alphabet (sizes, batch of two) is executed on representatives of each backbone family; the last output must equal a fresh copy's output for that frame alone (determinism, history and batch-mate independence). Bottom-up configurations with two different head strides are built with the heads listed in both key orders.",
         "grid values and depth are the bound; random weights seeded by VERIF_SEED; miniature widths; pretrained weights unavailable offline",
         "DESIGN.md §3 C14",
     ),
@@ -138,7 +138,7 @@ CHECKS = {
     "C18": (
         "exploration",
         "exhaustive enumeration of label sets (all ordered 2-frame sets over 8 frame types) x covering configuration grid, three-framework differential (in-memory, .npz chunks, chunk function -> real litdata .bin chunks -> StreamingDataset) + DataPipe block vs function",
-        "For every label set of the alphabet and every configuration of the (strength-2 covering in quick, full product for the core sets in thorough) grid the same (frame, instance) sample is built by the three user-selectable frameworks with the real classes and compared (images to 8-bit quantisation, keypoints/centroids, confidence maps, PAFs) in the domain the property names; each of the 8 legacy DataPipe blocks is compared with its functional counterpart on every enumerated example. exhaustive: true within the stated alphabet and grid. Every index is read twice and both reads are compared; multi-video label sets (colliding frame indices) are part of the alphabet.",
+        "For every label set of the alphabet and every configuration of the (strength-2 covering in quick, full product for the core sets in thorough) grid the same (frame, instance) sample is built by the three user-selectable frameworks with the real classes and compared (images to 8-bit quantisation, keypoints/centroids, confidence maps, PAFs) in the domain the property names; each of the 8 legacy DataPipe blocks is compared with its functional counterpart on every enumerated example. exhaustive: true within the stated alphabet and grid. Every index is read twice and both reads are compared; multi-video label sets (colliding frame indices) are part of the alphabet. Multi-video label sets (same and different frame sizes, with a user-stated max_height or max_width equal to the common target) and a second epoch per dataset are included.",
         "litdata hand-over uses litdata's in-process BinaryWriter (optimize() workers do not complete offline); quick grid is a strength-2 covering array, not the full product",
         "DESIGN.md §3 C18",
     ),
